@@ -44,6 +44,7 @@ static void runScenario(int nthreads, const std::vector<std::string> &prolog, co
     for (int i = 0; i < HBYTES; ++i) H[j][i] = (unsigned char) (0x40 + 16 * j + (i % 13));
   }
   sim::setChecking(true);
+  sim::resetEntropy();
   for (size_t i = 0; i < prolog.size(); ++i) printf("PR %s\n", runOne(prolog[i]).c_str());
   for (size_t i = 0; i < switches.size(); ++i) {
     int a; long b; int c;
